@@ -180,7 +180,7 @@ Definition o_nread (tr : list label) (s : nat) : nat :=
 
 (* s may be stalling senders: subscribed (at least begun), not being closed, consumer not receiving *)
 Definition o_root (tr : list label) (s : nat) : bool :=
-  o_started tr (TSub s) && negb (o_started tr (TClose s)) && Nat.leb (o_nreq tr s) (o_nread tr s).
+  (o_started tr (TSub s) || o_returned tr (TSub s)) && negb (o_started tr (TClose s)) && Nat.leb (o_nreq tr s) (o_nread tr s).
 
 Definition o_typed_with (o : ocfg) (s ty : nat) : bool :=
   match nth_error (o_sub o) s with Some (Some tys) => existsb (Nat.eqb ty) tys | _ => false end.
